@@ -137,9 +137,21 @@ def _shard(arg):
         kind = draw(st.sampled_from(["list", "list", "tuple", "linspace", "range"]))
         T = draw(st.integers(2, 6))
         if kind in ("list", "tuple"):
-            incs = draw(st.lists(st.integers(1, 3000), min_size=T, max_size=T))
-            vals = list(np.cumsum(incs))
-            args = [dec(Fraction(int(v), 1000)) for v in vals]
+            spacing = draw(st.sampled_from(["free", "free", "nearly_regular", "tiny"]))
+            if spacing == "free":
+                incs = [Fraction(v, 1000) for v in draw(st.lists(st.integers(1, 3000), min_size=T, max_size=T))]
+            elif spacing == "nearly_regular":
+                # almost equidistant shells: steps differ by 1e-6 .. 1e-3 nm only
+                base = Fraction(draw(st.integers(10, 2000)), 1000)
+                eps = Fraction(1, 10 ** draw(st.integers(3, 6)))
+                incs = [base + eps * draw(st.integers(-4, 4)) for _ in range(T)]
+            else:  # very small radii
+                incs = [Fraction(v, 10 ** 6) for v in draw(st.lists(st.integers(1, 3000), min_size=T, max_size=T))]
+            vals, acc = [], Fraction(0)
+            for inc in incs:
+                acc += inc
+                vals.append(acc)
+            args = [dec(v) for v in vals]
             order = draw(st.permutations(args))
             body = ", ".join(order)
             text = "[" + body + "]" if kind == "list" else "(" + body + ")"
@@ -188,7 +200,7 @@ def run(tier):
     total, max_no = (960, 60) if tier == "quick" else (4800, 200)
     res = merge_results(pmap(_shard, [(s, total // 16, max_no) for s in range(16)]))
     rule = (f"Hypothesis: direction grid ico/cube3D/randomS with N in 4..{max_no}; radial grid with T in 2..6 strictly increasing "
-            f"positive radii as unsorted list / tuple (non-uniform spacing), linspace or range text; every cell and every pair "
+            f"positive radii as unsorted list / tuple (free, nearly regular with steps differing by 1e-6..1e-3 nm, or tiny radii), linspace or range text; every cell and every pair "
             f"of cells compared (dense n x n, n = N*T). Non-trivial = T>=3 with unequal increments, or N not a complete "
             f"subdivision level; distinct = distinct (direction grid, radial text).")
     return res, rule, {"assumptions": ["area, arc and angle on the unit sphere come from the independent clipping oracle; pairs whose "
